@@ -1,1 +1,1252 @@
-fn main() {}
+#![allow(unused_assignments, unused_variables)]
+//! enumc: exhaustive enumeration of bounded input domains against std (DESIGN §6).
+//! Serves C14 (integers), C15 (to_lean_string / floats), C16 (UTF-8/UTF-16 decoding), C19 (serde/arbitrary).
+use lean_string::{LeanString, ToLeanString, ToLeanStringError};
+
+#[global_allocator]
+static GLOBAL: lsverif::tlalloc::TlAlloc = lsverif::tlalloc::TlAlloc;
+use serde_json::{Value, json};
+use std::collections::BTreeMap;
+use std::fmt::{self, Display, Write as _};
+use std::num::NonZero;
+use std::sync::Mutex;
+use std::sync::atomic::{AtomicU64, Ordering};
+use std::time::Instant;
+
+fn arg(args: &[String], name: &str) -> Option<String> {
+    args.iter().position(|a| a == name).and_then(|i| args.get(i + 1).cloned())
+}
+
+struct Ctx {
+    prop: String,
+    evals: AtomicU64,
+    classes: Mutex<BTreeMap<String, u64>>,
+    findings: Mutex<BTreeMap<String, (String, Value, u64)>>,
+    domains: Mutex<Vec<Value>>,
+    samples: Mutex<Vec<Value>>,
+    threads: usize,
+    start: Instant,
+    wall: f64,
+    capped: Mutex<Vec<String>>,
+}
+
+impl Ctx {
+    fn fail(&self, sig: &str, detail: String, input: Value) {
+        let mut f = self.findings.lock().unwrap();
+        let sig = format!("{}/{}", self.prop, sig);
+        let e = f.entry(sig).or_insert((detail, input, 0));
+        e.2 += 1;
+    }
+    fn class(&self, c: String, n: u64) {
+        *self.classes.lock().unwrap().entry(c).or_default() += n;
+    }
+    fn domain(&self, name: &str, size: u64, exhaustive: bool, what: &str) {
+        self.domains.lock().unwrap().push(json!({"domain": name, "inputs": size, "complete_enumeration": exhaustive, "what": what}));
+        eprintln!("[{}] {name}: {size} inputs ({:.1}s)", self.prop, self.start.elapsed().as_secs_f64());
+    }
+    fn sample(&self, v: Value) {
+        let mut s = self.samples.lock().unwrap();
+        if s.len() < 12 {
+            s.push(v);
+        }
+    }
+    fn over(&self) -> bool {
+        self.start.elapsed().as_secs_f64() > self.wall
+    }
+}
+
+/// Runs f(lo, hi) over [0, total) split in blocks, on all threads. Returns false if the wall cap stopped it.
+fn par_ranges(cx: &Ctx, total: u64, block: u64, f: impl Fn(u64, u64) + Sync) -> bool {
+    let next = AtomicU64::new(0);
+    let complete = std::sync::atomic::AtomicBool::new(true);
+    std::thread::scope(|sc| {
+        for _ in 0..cx.threads {
+            sc.spawn(|| {
+                loop {
+                    let lo = next.fetch_add(block, Ordering::Relaxed);
+                    if lo >= total {
+                        break;
+                    }
+                    if cx.over() {
+                        if complete.swap(false, Ordering::Relaxed) {
+                            cx.capped.lock().unwrap().push(format!("wall cap hit after {:.0}s: a domain of {total} inputs was not finished (its count below is the planned size)", cx.wall));
+                        }
+                        break;
+                    }
+                    f(lo, (lo + block).min(total));
+                }
+            });
+        }
+    });
+    complete.into_inner()
+}
+
+struct Stack {
+    b: [u8; 64],
+    n: usize,
+}
+impl fmt::Write for Stack {
+    fn write_str(&mut self, s: &str) -> fmt::Result {
+        self.b[self.n..self.n + s.len()].copy_from_slice(s.as_bytes());
+        self.n += s.len();
+        Ok(())
+    }
+}
+
+#[inline]
+fn int_ok<T: Display + ToLeanString + Copy>(v: T) -> bool {
+    let l = v.to_lean_string();
+    let mut b = Stack { b: [0; 64], n: 0 };
+    let _ = write!(b, "{v}");
+    l.as_bytes() == &b.b[..b.n] && (l.len() > 16 || !l.is_heap_allocated())
+}
+
+macro_rules! check_int {
+    ($cx:expr, $t:ty, $v:expr, $cnt:expr) => {{
+        let v: $t = $v;
+        $cnt += 1;
+        if !int_ok(v) {
+            $cx.fail(concat!(stringify!($t), "/mismatch"), format!("{}::to_lean_string({}) = {:?}, Display gives {:?}", stringify!($t), v, v.to_lean_string().as_str(), v.to_string()), json!({"type": stringify!($t), "value": v.to_string()}));
+        }
+        if let Some(nz) = NonZero::<$t>::new(v) {
+            $cnt += 1;
+            if !int_ok(nz) {
+                $cx.fail(concat!("NonZero<", stringify!($t), ">/mismatch"), format!("NonZero<{}>::to_lean_string({}) = {:?}", stringify!($t), v, nz.to_lean_string().as_str()), json!({"type": concat!("NonZero<", stringify!($t), ">"), "value": v.to_string()}));
+            }
+        }
+    }};
+}
+
+/// the structured 64/128-bit families as i128 candidates (filtered per type by try_from)
+fn families(quick: bool, max_digits: u32, window: bool) -> Vec<i128> {
+    let mut v: Vec<i128> = Vec::new();
+    // F-pow: 10^k + d, 2^k + d, both signs
+    let mut p: i128 = 1;
+    for _ in 0..max_digits {
+        for d in -3..=3 {
+            v.push(p + d);
+            v.push(-(p + d));
+        }
+        p = p.saturating_mul(10);
+    }
+    for k in 0..127 {
+        let b = 1i128 << k;
+        for d in -3..=3 {
+            v.push(b + d);
+            v.push(-(b + d));
+        }
+    }
+    if window {
+        // F-window: every digit count D, every position of a 4-digit window, every window value,
+        // three backgrounds
+        let step = if quick { 7 } else { 1 };
+        for digits in 1..=max_digits {
+            let backgrounds: [Vec<u8>; 3] = [
+                std::iter::once(1u8).chain(std::iter::repeat_n(0, digits as usize - 1)).collect(),
+                std::iter::repeat_n(9, digits as usize).collect(),
+                (0..digits).map(|i| ((i + 1) % 10) as u8).map(|d| if d == 0 { 1 } else { d }).collect(),
+            ];
+            for bg in &backgrounds {
+                let wlen = 4.min(digits as usize);
+                for pos in 0..=(digits as usize - wlen) {
+                    let mut w = 0;
+                    while w < 10usize.pow(wlen as u32) {
+                        let mut ds = bg.clone();
+                        let mut x = w;
+                        for j in (0..wlen).rev() {
+                            ds[pos + j] = (x % 10) as u8;
+                            x /= 10;
+                        }
+                        if ds[0] == 0 && digits > 1 {
+                            ds[0] = 1;
+                        }
+                        let mut val: i128 = 0;
+                        let mut overflow = false;
+                        for d in &ds {
+                            match val.checked_mul(10).and_then(|x| x.checked_add(*d as i128)) {
+                                Some(x) => val = x,
+                                None => {
+                                    overflow = true;
+                                    break;
+                                }
+                            }
+                        }
+                        if !overflow {
+                            v.push(val);
+                            v.push(-val);
+                        }
+                        w += step;
+                    }
+                }
+            }
+        }
+    }
+    v
+}
+
+fn c14(cx: &Ctx, quick: bool) {
+    // 8- and 16-bit types: every value
+    let mut n = 0u64;
+    for v in u8::MIN..=u8::MAX {
+        check_int!(cx, u8, v, n);
+        check_int!(cx, i8, v as i8, n);
+    }
+    for v in u16::MIN..=u16::MAX {
+        check_int!(cx, u16, v, n);
+        check_int!(cx, i16, v as i16, n);
+    }
+    cx.domain("u8,i8,u16,i16 and their NonZero forms: every value", n, true, "all values");
+    cx.class("8/16-bit".into(), n);
+    // 32-bit types
+    let total32: u64 = 1 << 32;
+    let stride: u64 = if quick { 37 } else { 1 };
+    let cnt = AtomicU64::new(0);
+    let complete = par_ranges(cx, total32 / stride, 1 << 16, |lo, hi| {
+        let mut c = 0u64;
+        for i in lo..hi {
+            let v = (i * stride) as u32;
+            check_int!(cx, u32, v, c);
+            check_int!(cx, i32, v as i32, c);
+        }
+        cnt.fetch_add(c, Ordering::Relaxed);
+    });
+    let c32 = cnt.load(Ordering::Relaxed);
+    cx.domain(if quick { "u32,i32,NonZero: every 37th bit pattern (quick tier)" } else { "u32,i32,NonZero<u32>,NonZero<i32>: all 2^32 bit patterns" }, c32, !quick && complete, "bit patterns 0..2^32 reinterpreted as u32 and i32");
+    if !complete {
+        cx.capped.lock().unwrap().push("32-bit sweep stopped by the wall cap".into());
+    }
+    cx.class("32-bit".into(), c32);
+    // F-low for every type: |v| < bound
+    let low: i128 = if quick { 200_000 } else { 10_000_000 };
+    let cnt = AtomicU64::new(0);
+    par_ranges(cx, (2 * low) as u64, 1 << 14, |lo, hi| {
+        let mut c = 0u64;
+        for i in lo..hi {
+            let x = i as i128 - low;
+            if let Ok(v) = i64::try_from(x) {
+                check_int!(cx, i64, v, c);
+                check_int!(cx, isize, v as isize, c);
+            }
+            if let Ok(v) = u64::try_from(x) {
+                check_int!(cx, u64, v, c);
+                check_int!(cx, usize, v as usize, c);
+                check_int!(cx, u128, v as u128, c);
+            }
+            check_int!(cx, i128, x, c);
+            if let Ok(v) = i32::try_from(x) {
+                check_int!(cx, i32, v, c);
+            }
+            if let Ok(v) = u32::try_from(x) {
+                check_int!(cx, u32, v, c);
+            }
+        }
+        cnt.fetch_add(c, Ordering::Relaxed);
+    });
+    cx.domain("F-low: every |v| below the bound in i32,u32,i64,u64,isize,usize,i128,u128 (+NonZero)", cnt.load(Ordering::Relaxed), true, &format!("|v| < {low}"));
+    cx.class("F-low".into(), cnt.load(Ordering::Relaxed));
+    // structured families for 64- and 128-bit types
+    let fam = families(quick, 39, true);
+    let cnt = AtomicU64::new(0);
+    let per_digits: Mutex<BTreeMap<String, u64>> = Mutex::new(BTreeMap::new());
+    par_ranges(cx, fam.len() as u64, 1 << 12, |lo, hi| {
+        let mut c = 0u64;
+        let mut local: BTreeMap<String, u64> = BTreeMap::new();
+        for &x in &fam[lo as usize..hi as usize] {
+            let before = c;
+            if let Ok(v) = i64::try_from(x) {
+                check_int!(cx, i64, v, c);
+                check_int!(cx, isize, v as isize, c);
+            }
+            if let Ok(v) = u64::try_from(x) {
+                check_int!(cx, u64, v, c);
+                check_int!(cx, usize, v as usize, c);
+            }
+            if let Ok(v) = u128::try_from(x) {
+                check_int!(cx, u128, v, c);
+            }
+            check_int!(cx, i128, x, c);
+            if let Ok(v) = i32::try_from(x) {
+                check_int!(cx, i32, v, c);
+            }
+            if let Ok(v) = u32::try_from(x) {
+                check_int!(cx, u32, v, c);
+            }
+            if let Ok(v) = i16::try_from(x) {
+                check_int!(cx, i16, v, c);
+            }
+            if let Ok(v) = u16::try_from(x) {
+                check_int!(cx, u16, v, c);
+            }
+            let digits = x.unsigned_abs().to_string().len();
+            *local.entry(format!("{}{digits}-digits", if x < 0 { "neg-" } else { "" })).or_default() += c - before;
+        }
+        cnt.fetch_add(c, Ordering::Relaxed);
+        let mut g = per_digits.lock().unwrap();
+        for (k, v) in local {
+            *g.entry(k).or_default() += v;
+        }
+    });
+    // u128 values above i128::MAX: powers and windows mirrored from the top
+    let mut c = 0u64;
+    for x in &fam {
+        if *x >= 0 {
+            let v = u128::MAX - (*x as u128);
+            check_int!(cx, u128, v, c);
+        }
+    }
+    for d in 0..=3u128 {
+        check_int!(cx, u128, u128::MAX - d, c);
+        check_int!(cx, u64, u64::MAX - d as u64, c);
+        check_int!(cx, i64, i64::MAX - d as i64, c);
+        check_int!(cx, i64, i64::MIN + d as i64, c);
+        check_int!(cx, i128, i128::MAX - d as i128, c);
+        check_int!(cx, i128, i128::MIN + d as i128, c);
+        check_int!(cx, usize, usize::MAX - d as usize, c);
+        check_int!(cx, isize, isize::MIN + d as isize, c);
+        check_int!(cx, isize, isize::MAX - d as isize, c);
+    }
+    let total = cnt.load(Ordering::Relaxed) + c;
+    cx.domain("F-pow + F-window + extremes: 10^k+d, 2^k+d (|d|<=3), every digit count x 4-digit window position x window value x 3 backgrounds, both signs, type extremes, mirrored from u128::MAX", total, true, &format!("{} candidate values, each tried in every integer type that can hold it{}", fam.len(), if quick { " (quick tier: every 7th window value)" } else { "" }));
+    for (k, v) in per_digits.into_inner().unwrap() {
+        cx.class(format!("family/{k}"), v);
+    }
+    if !quick {
+        // the 32-bit values lifted into the 64-bit types
+        let cnt = AtomicU64::new(0);
+        let complete = par_ranges(cx, 1 << 32, 1 << 16, |lo, hi| {
+            let mut c = 0u64;
+            for i in lo..hi {
+                check_int!(cx, u64, i, c);
+                check_int!(cx, i64, -(i as i64), c);
+            }
+            cnt.fetch_add(c, Ordering::Relaxed);
+        });
+        cx.domain("all 2^32 values lifted into u64 and (negated) i64", cnt.load(Ordering::Relaxed), complete, "0..2^32 as u64, -(0..2^32) as i64");
+        cx.class("lifted-32".into(), cnt.load(Ordering::Relaxed));
+    }
+    cx.sample(json!({"type": "i64", "value": "-99999999999", "lean": (-99999999999i64).to_lean_string().as_str()}));
+    cx.sample(json!({"type": "u128", "value": u128::MAX.to_string(), "lean": u128::MAX.to_lean_string().as_str()}));
+    cx.sample(json!({"type": "NonZero<i8>", "value": "-128", "lean": NonZero::<i8>::new(-128).unwrap().to_lean_string().as_str()}));
+}
+
+// ---------------------------------------------------------------------------------------
+// C15
+
+struct Pieces<'a> {
+    pieces: Vec<&'a str>,
+    err_after: Option<usize>,
+}
+impl Display for Pieces<'_> {
+    fn fmt(&self, f: &mut fmt::Formatter<'_>) -> fmt::Result {
+        for (i, p) in self.pieces.iter().enumerate() {
+            if self.err_after == Some(i) {
+                return Err(fmt::Error);
+            }
+            f.write_str(p)?;
+        }
+        if self.err_after == Some(self.pieces.len()) {
+            return Err(fmt::Error);
+        }
+        Ok(())
+    }
+}
+
+fn width_texts(max: usize) -> Vec<String> {
+    let chars = ['a', 'é', '€', '😀'];
+    let mut out = vec![String::new()];
+    let mut cur = vec![String::new()];
+    loop {
+        let mut next = Vec::new();
+        for t in &cur {
+            for c in chars {
+                if t.len() + c.len_utf8() <= max {
+                    let mut s = t.clone();
+                    s.push(c);
+                    next.push(s);
+                }
+            }
+        }
+        if next.is_empty() {
+            break;
+        }
+        out.extend(next.iter().cloned());
+        cur = next;
+    }
+    out
+}
+
+fn display_eq<T: Display + ToLeanString>(cx: &Ctx, what: &str, v: &T, input: Value) {
+    let want = v.to_string();
+    let got = v.to_lean_string();
+    let got2 = v.try_to_lean_string();
+    if got.as_str() != want || got2.as_ref().map(|s| s.as_str()) != Ok(want.as_str()) {
+        cx.fail(&format!("{what}/mismatch"), format!("{what}: to_lean_string gives {:?}, to_string gives {:?}", got.as_str(), want), input);
+    }
+}
+
+fn f32_ok(bits: u32) -> bool {
+    let f = f32::from_bits(bits);
+    let l = f.to_lean_string();
+    match l.parse::<f32>() {
+        Ok(g) => g.to_bits() == bits || (f.is_nan() && g.is_nan()),
+        Err(_) => false,
+    }
+}
+fn f64_ok(bits: u64) -> bool {
+    let f = f64::from_bits(bits);
+    let l = f.to_lean_string();
+    match l.parse::<f64>() {
+        Ok(g) => g.to_bits() == bits || (f.is_nan() && g.is_nan()),
+        Err(_) => false,
+    }
+}
+
+fn c15(cx: &Ctx, quick: bool) {
+    std::panic::set_hook(Box::new(|_| {}));
+    let mut n = 0u64;
+    for b in [true, false] {
+        display_eq(cx, "bool", &b, json!({"bool": b}));
+        n += 1;
+    }
+    // every char
+    let cnt = AtomicU64::new(0);
+    par_ranges(cx, 0x110000, 1 << 12, |lo, hi| {
+        let mut c = 0;
+        for u in lo..hi {
+            if let Some(ch) = char::from_u32(u as u32) {
+                display_eq(cx, "char", &ch, json!({"char": u}));
+                if LeanString::from(ch).as_str() != ch.to_string() {
+                    cx.fail("char/from", format!("From<char>({u:#x}) differs"), json!({"char": u}));
+                }
+                c += 1;
+            }
+        }
+        cnt.fetch_add(c, Ordering::Relaxed);
+    });
+    cx.domain("bool: both values; char: every Unicode scalar value", n + cnt.load(Ordering::Relaxed), true, "all 1 112 064 chars through to_lean_string, try_to_lean_string and From<char>");
+    cx.class("char".into(), cnt.load(Ordering::Relaxed));
+    // strings through every Display carrier
+    let texts = width_texts(if quick { 11 } else { 18 });
+    let cnt = AtomicU64::new(0);
+    par_ranges(cx, texts.len() as u64, 256, |lo, hi| {
+        let mut c = 0;
+        for t in &texts[lo as usize..hi as usize] {
+            let inp = json!({"text": t});
+            display_eq(cx, "String", t, inp.clone());
+            display_eq(cx, "&str", &t.as_str(), inp.clone());
+            display_eq(cx, "LeanString", &LeanString::from(t.as_str()), inp.clone());
+            display_eq(cx, "Cow<str>", &std::borrow::Cow::Borrowed(t.as_str()), inp.clone());
+            display_eq(cx, "Box<str>", &Box::<str>::from(t.as_str()), inp.clone());
+            display_eq(cx, "format_args", &format_args!("{t}|{}", t.len()), inp);
+            c += 6;
+        }
+        cnt.fetch_add(c, Ordering::Relaxed);
+    });
+    cx.domain("strings: every text over a/é/€/😀 up to the length bound, as String, &str, LeanString, Cow<str>, Box<str>, fmt::Arguments", cnt.load(Ordering::Relaxed), true, &format!("{} texts x 6 carriers", texts.len()));
+    cx.class("strings".into(), cnt.load(Ordering::Relaxed));
+    // user Display types emitting a text in pieces: every split at char boundaries
+    let base: Vec<String> = {
+        let mut v = width_texts(if quick { 8 } else { 12 }).into_iter().filter(|t| t.chars().count() <= 8).collect::<Vec<_>>();
+        v.push("0123456789abcdef".into());
+        v.push("0123456789abcdefg".into());
+        v.push("0123456é9abcdef€".into());
+        v
+    };
+    let cnt = AtomicU64::new(0);
+    par_ranges(cx, base.len() as u64, 64, |lo, hi| {
+        let mut c = 0u64;
+        for t in &base[lo as usize..hi as usize] {
+            let bounds: Vec<usize> = t.char_indices().map(|(i, _)| i).skip(1).collect();
+            let nsplit = bounds.len().min(12);
+            for mask in 0u32..(1 << nsplit) {
+                let mut pieces = Vec::new();
+                let mut start = 0;
+                for (bi, &b) in bounds.iter().enumerate().take(nsplit) {
+                    if mask & (1 << bi) != 0 {
+                        pieces.push(&t[start..b]);
+                        start = b;
+                    }
+                }
+                pieces.push(&t[start..]);
+                let np = pieces.len();
+                let d = Pieces { pieces: pieces.clone(), err_after: None };
+                display_eq(cx, "Display-in-pieces", &d, json!({"text": t, "split_mask": mask}));
+                c += 1;
+                // a Display that reports an error after j pieces: Err(Fmt), never a partial value
+                for j in 0..=np {
+                    let d = Pieces { pieces: pieces.clone(), err_after: Some(j) };
+                    c += 1;
+                    match d.try_to_lean_string() {
+                        Err(ToLeanStringError::Fmt(_)) => {}
+                        other => cx.fail("Display-error/not-reported", format!("Display of {t:?} failing after {j} of {np} pieces: try_to_lean_string returned {other:?}"), json!({"text": t, "split_mask": mask, "err_after": j})),
+                    }
+                    let r = std::panic::catch_unwind(std::panic::AssertUnwindSafe(|| d.to_lean_string()));
+                    if r.is_ok() {
+                        cx.fail("Display-error/no-panic", format!("Display of {t:?} failing after {j} pieces: to_lean_string returned a value"), json!({"text": t, "split_mask": mask, "err_after": j}));
+                    }
+                }
+            }
+        }
+        cnt.fetch_add(c, Ordering::Relaxed);
+    });
+    // piece-size sequences crossing the inline limit mid-write
+    let sizes = [0usize, 1, 7, 8, 9, 16, 17];
+    let long = "0123456789abcdefghijklmnopqrstuvwxyzABCDEFGHIJKLMNOPQRSTUVWXYZ0123456789";
+    let mut c2 = 0u64;
+    for n in 1..=4usize {
+        for code in 0..sizes.len().pow(n as u32) {
+            let mut x = code;
+            let mut pieces = Vec::new();
+            let mut off = 0;
+            for _ in 0..n {
+                let s = sizes[x % sizes.len()];
+                x /= sizes.len();
+                pieces.push(&long[off..off + s]);
+                off += s;
+            }
+            let d = Pieces { pieces, err_after: None };
+            display_eq(cx, "Display-piece-sizes", &d, json!({"piece_sizes_code": code, "n": n}));
+            c2 += 1;
+        }
+    }
+    cx.domain("user Display types: every split of every base text at char boundaries; every error position; piece-size sequences {0,1,7,8,9,16,17}^(<=4)", cnt.load(Ordering::Relaxed) + c2, true, &format!("{} base texts", base.len()));
+    cx.class("display-pieces".into(), cnt.load(Ordering::Relaxed) + c2);
+    // floats
+    std::panic::set_hook(Box::new(|_| {}));
+    let (total, stride_note): (u64, &str) = if quick { (1 << 32, "quick tier: all 2^8 sign/exponent combinations... every 4099th bit pattern plus all exponents x 256 mantissas") } else { (1 << 32, "all 2^32 bit patterns") };
+    let cnt = AtomicU64::new(0);
+    let complete = if quick {
+        // all 512 sign/exponent values x 256 structured mantissas, plus a stride over everything
+        let mut mants: Vec<u32> = vec![0, 1, 2, 0x7FFFFF, 0x7FFFFE, 0x400000, 0x555555, 0x2AAAAA];
+        for k in 0..23 {
+            mants.push(1 << k);
+            mants.push((1 << k) - 1);
+            mants.push(0x7FFFFF ^ (1 << k));
+        }
+        for k in 0..170 {
+            mants.push((k * 49157) & 0x7FFFFF);
+        }
+        let mut c = 0u64;
+        for se in 0..512u32 {
+            for &m in &mants {
+                let bits = (se << 23) | m;
+                c += 1;
+                if !f32_ok(bits) {
+                    cx.fail("f32/round-trip", format!("f32 bits {bits:#x}: {:?} does not parse back", f32::from_bits(bits).to_lean_string().as_str()), json!({"f32_bits": bits}));
+                }
+            }
+        }
+        cnt.fetch_add(c, Ordering::Relaxed);
+        par_ranges(cx, total / 4099, 1 << 12, |lo, hi| {
+            let mut c = 0;
+            for i in lo..hi {
+                let bits = (i * 4099) as u32;
+                c += 1;
+                if !f32_ok(bits) {
+                    cx.fail("f32/round-trip", format!("f32 bits {bits:#x} does not round-trip"), json!({"f32_bits": bits}));
+                }
+            }
+            cnt.fetch_add(c, Ordering::Relaxed);
+        })
+    } else {
+        par_ranges(cx, total, 1 << 16, |lo, hi| {
+            let mut c = 0;
+            for i in lo..hi {
+                let bits = i as u32;
+                c += 1;
+                if !f32_ok(bits) {
+                    cx.fail("f32/round-trip", format!("f32 bits {bits:#x}: {:?} does not parse back", f32::from_bits(bits).to_lean_string().as_str()), json!({"f32_bits": bits}));
+                }
+            }
+            cnt.fetch_add(c, Ordering::Relaxed);
+        })
+    };
+    cx.domain("f32 bit patterns", cnt.load(Ordering::Relaxed), !quick && complete, stride_note);
+    cx.class("f32".into(), cnt.load(Ordering::Relaxed));
+    // f64: every exponent x sign x structured mantissas
+    let mut mants: Vec<u64> = vec![0, 1, 2, 3, (1 << 52) - 1, (1 << 52) - 2, 1 << 51, 0x5555555555555, 0xAAAAAAAAAAAAA];
+    for k in 0..52 {
+        mants.push(1 << k);
+        mants.push((1 << k) - 1);
+        mants.push(((1u64 << 52) - 1) ^ (1 << k));
+    }
+    let extra = if quick { 40 } else { 300 };
+    for k in 0..extra {
+        mants.push((k as u64).wrapping_mul(0x9E3779B97F4A7C15) & ((1 << 52) - 1));
+    }
+    let cnt = AtomicU64::new(0);
+    par_ranges(cx, 4096, 16, |lo, hi| {
+        let mut c = 0;
+        for se in lo..hi {
+            for &m in &mants {
+                let bits = (se << 52) | m;
+                c += 1;
+                if !f64_ok(bits) {
+                    cx.fail("f64/round-trip", format!("f64 bits {bits:#x}: {:?} does not parse back", f64::from_bits(bits).to_lean_string().as_str()), json!({"f64_bits": bits}));
+                }
+            }
+        }
+        cnt.fetch_add(c, Ordering::Relaxed);
+    });
+    // shortest-decimal stress values: 1eN, 5eN and their neighbours
+    let mut c3 = 0u64;
+    for e in -330..=310 {
+        for lead in ["1", "5", "9.999999999999999", "1.7976931348623157", "2.2250738585072014", "4.9"] {
+            if let Ok(f) = format!("{lead}e{e}").parse::<f64>() {
+                for d in -2i64..=2 {
+                    let bits = (f.to_bits() as i64).wrapping_add(d) as u64;
+                    c3 += 1;
+                    if !f64_ok(bits) {
+                        cx.fail("f64/round-trip", format!("f64 bits {bits:#x} does not round-trip"), json!({"f64_bits": bits}));
+                    }
+                    let b32 = ((f as f32).to_bits() as i64).wrapping_add(d) as u32;
+                    c3 += 1;
+                    if !f32_ok(b32) {
+                        cx.fail("f32/round-trip", format!("f32 bits {b32:#x} does not round-trip"), json!({"f32_bits": b32}));
+                    }
+                }
+            }
+        }
+    }
+    cx.domain("f64: every sign/exponent (4096) x structured mantissas; decimal stress values k*10^e +-2 ulp", cnt.load(Ordering::Relaxed) + c3, true, &format!("{} mantissa patterns per exponent (structured family, not all 2^64 values)", mants.len()));
+    cx.class("f64".into(), cnt.load(Ordering::Relaxed) + c3);
+    cx.sample(json!({"f64": "0.1", "lean": 0.1f64.to_lean_string().as_str()}));
+    cx.sample(json!({"f32": "NaN", "lean": f32::NAN.to_lean_string().as_str()}));
+    cx.sample(json!({"display_pieces": ["ab", "é", ""], "lean": Pieces { pieces: vec!["ab", "é", ""], err_after: None }.to_lean_string().as_str()}));
+}
+
+// ---------------------------------------------------------------------------------------
+// C16
+
+const UTF8_ALPHA: [u8; 16] = [0x41, 0x80, 0x8F, 0x90, 0x9F, 0xA0, 0xBF, 0xC0, 0xC2, 0xE0, 0xE1, 0xED, 0xEE, 0xF0, 0xF1, 0xF4];
+const UTF8_ALPHA2: [u8; 16] = [0x00, 0x80, 0x7F, 0x90, 0x9F, 0xC1, 0xBF, 0xDF, 0xC2, 0xE0, 0xEF, 0xED, 0xF5, 0xF0, 0xFF, 0xF4];
+const U16_ALPHA: [u16; 10] = [0x0041, 0x00E9, 0x20AC, 0xD7FF, 0xD800, 0xDBFF, 0xDC00, 0xDFFF, 0xE000, 0xFFFF];
+
+#[inline]
+fn utf8_case(cx: &Ctx, b: &[u8]) {
+    let a = LeanString::from_utf8(b);
+    let s = std::str::from_utf8(b);
+    let ok = match (&a, &s) {
+        (Ok(x), Ok(y)) => x.as_str() == *y,
+        (Err(e1), Err(e2)) => e1.valid_up_to() == e2.valid_up_to() && e1.error_len() == e2.error_len(),
+        _ => false,
+    };
+    if !ok {
+        cx.fail("from_utf8/disagrees", format!("from_utf8({b:02x?}) = {:?}, std gives {:?}", a.as_ref().map(|x| x.as_str().to_string()), s), json!({"bytes": b}));
+    }
+    let l = LeanString::from_utf8_lossy(b);
+    let sl = String::from_utf8_lossy(b);
+    if l.as_str() != &*sl {
+        cx.fail("from_utf8_lossy/disagrees", format!("from_utf8_lossy({b:02x?}) = {:?}, String::from_utf8_lossy gives {:?}", l.as_str(), sl), json!({"bytes": b}));
+    }
+}
+#[inline]
+fn utf16_case(cx: &Ctx, u: &[u16]) {
+    let a = LeanString::from_utf16(u);
+    let s = String::from_utf16(u);
+    let ok = match (&a, &s) {
+        (Ok(x), Ok(y)) => x.as_str() == y.as_str(),
+        (Err(_), Err(_)) => true,
+        _ => false,
+    };
+    if !ok {
+        cx.fail("from_utf16/disagrees", format!("from_utf16({u:04x?}) = {:?}, String gives {:?}", a.as_ref().map(|x| x.as_str().to_string()).ok(), s.as_ref().ok()), json!({"u16": u}));
+    }
+    let l = LeanString::from_utf16_lossy(u);
+    let sl = String::from_utf16_lossy(u);
+    if l.as_str() != sl {
+        cx.fail("from_utf16_lossy/disagrees", format!("from_utf16_lossy({u:04x?}) = {:?}, String gives {sl:?}", l.as_str()), json!({"u16": u}));
+    }
+}
+
+fn c16(cx: &Ctx, quick: bool) {
+    let maxlen = if quick { 6 } else { 7 };
+    for (pass, alpha) in [UTF8_ALPHA, UTF8_ALPHA2].iter().enumerate() {
+        let mut total_all = 0u64;
+        let mut complete = true;
+        for len in 0..=maxlen {
+            let total = 16u64.pow(len as u32);
+            complete &= par_ranges(cx, total, 1 << 14, |lo, hi| {
+                let mut buf = [0u8; 8];
+                for code in lo..hi {
+                    let mut c = code;
+                    for b in buf.iter_mut().take(len) {
+                        *b = alpha[(c & 15) as usize];
+                        c >>= 4;
+                    }
+                    utf8_case(cx, &buf[..len]);
+                }
+            });
+            total_all += total;
+        }
+        cx.domain(&format!("byte sequences of length 0..={maxlen} over 16-symbol UTF-8 class alphabet #{}", pass + 1), total_all, complete, &format!("{alpha:02x?}; from_utf8 (acceptance, valid_up_to, error_len, text) and from_utf8_lossy (text)"));
+        cx.class(format!("utf8-pass{}", pass + 1), total_all);
+    }
+    // sequences prefixed by 10..=17 ASCII bytes: straddle the inline limit / outgrow with_capacity(buf.len())
+    let plen = if quick { 4 } else { 5 };
+    let mut total_all = 0u64;
+    for prefix in 10..=17usize {
+        for len in 0..=plen {
+            let total = 16u64.pow(len as u32);
+            par_ranges(cx, total, 1 << 12, |lo, hi| {
+                let mut buf = [b'a'; 32];
+                for code in lo..hi {
+                    let mut c = code;
+                    for i in 0..len {
+                        buf[prefix + i] = UTF8_ALPHA[(c & 15) as usize];
+                        c >>= 4;
+                    }
+                    utf8_case(cx, &buf[..prefix + len]);
+                    // and the same sequence in front of the ASCII run
+                    let mut rev = [b'z'; 32];
+                    rev[..len].copy_from_slice(&buf[prefix..prefix + len]);
+                    utf8_case(cx, &rev[..prefix + len]);
+                }
+            });
+            total_all += 2 * total;
+        }
+    }
+    cx.domain("the same sequences (length <= bound) behind and in front of 10..=17 ASCII bytes", total_all, true, "valid text, truncated sequences and replacement characters straddling the 16-byte inline limit");
+    cx.class("utf8-prefixed".into(), total_all);
+    // UTF-16
+    let ulen = if quick { 5 } else { 6 };
+    let mut total_all = 0u64;
+    for len in 0..=ulen {
+        let total = 10u64.pow(len as u32);
+        par_ranges(cx, total, 1 << 12, |lo, hi| {
+            let mut buf = [0u16; 8];
+            for code in lo..hi {
+                let mut c = code;
+                for b in buf.iter_mut().take(len) {
+                    *b = U16_ALPHA[(c % 10) as usize];
+                    c /= 10;
+                }
+                utf16_case(cx, &buf[..len]);
+            }
+        });
+        total_all += total;
+    }
+    for prefix in [5usize, 7, 8, 14, 15, 16, 17] {
+        for len in 0..=4 {
+            let total = 10u64.pow(len as u32);
+            let mut buf = [0x61u16; 32];
+            for code in 0..total {
+                let mut c = code;
+                for i in 0..len {
+                    buf[prefix + i] = U16_ALPHA[(c % 10) as usize];
+                    c /= 10;
+                }
+                utf16_case(cx, &buf[..prefix + len]);
+            }
+            total_all += total;
+        }
+    }
+    cx.domain(&format!("u16 sequences of length 0..={ulen} over {{BMP, surrogate boundaries}} + ASCII-prefixed variants"), total_all, true, &format!("{U16_ALPHA:04x?}; from_utf16 (acceptance, text), from_utf16_lossy (text)"));
+    cx.class("utf16".into(), total_all);
+    cx.sample(json!({"bytes": [0xE0, 0x80, 0x41], "lossy": LeanString::from_utf8_lossy(&[0xE0, 0x80, 0x41]).as_str()}));
+    cx.sample(json!({"bytes": [0xF0, 0x90, 0x80], "lossy": LeanString::from_utf8_lossy(&[0xF0, 0x90, 0x80]).as_str()}));
+    cx.sample(json!({"u16": [0xD800, 0x0041], "lossy": LeanString::from_utf16_lossy(&[0xD800, 0x0041]).as_str()}));
+}
+
+// ---------------------------------------------------------------------------------------
+// C19
+
+mod serde_part {
+    use super::*;
+    use serde::de::value::{BorrowedBytesDeserializer, BorrowedStrDeserializer, BytesDeserializer, Error as VErr, StrDeserializer, StringDeserializer};
+    use serde::de::{Deserialize, Deserializer, Visitor};
+    use serde::ser::{Impossible, Serialize, Serializer};
+
+    /// records what the Serialize impl hands to the serializer
+    pub struct Rec;
+    #[derive(Debug, PartialEq)]
+    pub enum Got {
+        Str(String),
+        Other(&'static str),
+    }
+    #[derive(Debug)]
+    pub struct RecErr;
+    impl fmt::Display for RecErr {
+        fn fmt(&self, f: &mut fmt::Formatter<'_>) -> fmt::Result {
+            f.write_str("rec")
+        }
+    }
+    impl std::error::Error for RecErr {}
+    impl serde::ser::Error for RecErr {
+        fn custom<T: Display>(_: T) -> Self {
+            RecErr
+        }
+    }
+    macro_rules! other {
+        ($($name:ident($t:ty)),*) => { $(fn $name(self, _: $t) -> Result<Got, RecErr> { Ok(Got::Other(stringify!($name))) })* };
+    }
+    impl Serializer for Rec {
+        type Ok = Got;
+        type Error = RecErr;
+        type SerializeSeq = Impossible<Got, RecErr>;
+        type SerializeTuple = Impossible<Got, RecErr>;
+        type SerializeTupleStruct = Impossible<Got, RecErr>;
+        type SerializeTupleVariant = Impossible<Got, RecErr>;
+        type SerializeMap = Impossible<Got, RecErr>;
+        type SerializeStruct = Impossible<Got, RecErr>;
+        type SerializeStructVariant = Impossible<Got, RecErr>;
+        fn serialize_str(self, v: &str) -> Result<Got, RecErr> {
+            Ok(Got::Str(v.to_string()))
+        }
+        other!(serialize_bool(bool), serialize_i8(i8), serialize_i16(i16), serialize_i32(i32), serialize_i64(i64), serialize_u8(u8), serialize_u16(u16), serialize_u32(u32), serialize_u64(u64), serialize_f32(f32), serialize_f64(f64), serialize_char(char), serialize_bytes(&[u8]), serialize_unit_struct(&'static str));
+        fn serialize_none(self) -> Result<Got, RecErr> {
+            Ok(Got::Other("none"))
+        }
+        fn serialize_some<T: ?Sized + Serialize>(self, _: &T) -> Result<Got, RecErr> {
+            Ok(Got::Other("some"))
+        }
+        fn serialize_unit(self) -> Result<Got, RecErr> {
+            Ok(Got::Other("unit"))
+        }
+        fn serialize_unit_variant(self, _: &'static str, _: u32, _: &'static str) -> Result<Got, RecErr> {
+            Ok(Got::Other("unit_variant"))
+        }
+        fn serialize_newtype_struct<T: ?Sized + Serialize>(self, _: &'static str, _: &T) -> Result<Got, RecErr> {
+            Ok(Got::Other("newtype_struct"))
+        }
+        fn serialize_newtype_variant<T: ?Sized + Serialize>(self, _: &'static str, _: u32, _: &'static str, _: &T) -> Result<Got, RecErr> {
+            Ok(Got::Other("newtype_variant"))
+        }
+        fn serialize_seq(self, _: Option<usize>) -> Result<Self::SerializeSeq, RecErr> {
+            Err(RecErr)
+        }
+        fn serialize_tuple(self, _: usize) -> Result<Self::SerializeTuple, RecErr> {
+            Err(RecErr)
+        }
+        fn serialize_tuple_struct(self, _: &'static str, _: usize) -> Result<Self::SerializeTupleStruct, RecErr> {
+            Err(RecErr)
+        }
+        fn serialize_tuple_variant(self, _: &'static str, _: u32, _: &'static str, _: usize) -> Result<Self::SerializeTupleVariant, RecErr> {
+            Err(RecErr)
+        }
+        fn serialize_map(self, _: Option<usize>) -> Result<Self::SerializeMap, RecErr> {
+            Err(RecErr)
+        }
+        fn serialize_struct(self, _: &'static str, _: usize) -> Result<Self::SerializeStruct, RecErr> {
+            Err(RecErr)
+        }
+        fn serialize_struct_variant(self, _: &'static str, _: u32, _: &'static str, _: usize) -> Result<Self::SerializeStructVariant, RecErr> {
+            Err(RecErr)
+        }
+    }
+
+    /// A deserializer that calls exactly one visitor method with the given input.
+    #[derive(Clone, Copy)]
+    pub struct Driver<'de> {
+        pub which: u8,
+        pub bytes: &'de [u8],
+    }
+    pub const DRIVER_METHODS: [&str; 6] = ["visit_str", "visit_borrowed_str", "visit_string", "visit_bytes", "visit_borrowed_bytes", "visit_byte_buf"];
+    impl<'de> Driver<'de> {
+        fn drive<V: Visitor<'de>>(self, v: V) -> Result<V::Value, VErr> {
+            match self.which {
+                0 => v.visit_str(std::str::from_utf8(self.bytes).unwrap()),
+                1 => v.visit_borrowed_str(std::str::from_utf8(self.bytes).unwrap()),
+                2 => v.visit_string(String::from_utf8(self.bytes.to_vec()).unwrap()),
+                3 => v.visit_bytes(self.bytes),
+                4 => v.visit_borrowed_bytes(self.bytes),
+                _ => v.visit_byte_buf(self.bytes.to_vec()),
+            }
+        }
+    }
+    macro_rules! fwd {
+        ($($name:ident),*) => { $(fn $name<V: Visitor<'de>>(self, v: V) -> Result<V::Value, VErr> { self.drive(v) })* };
+    }
+    impl<'de> Deserializer<'de> for Driver<'de> {
+        type Error = VErr;
+        fwd!(deserialize_any, deserialize_bool, deserialize_i8, deserialize_i16, deserialize_i32, deserialize_i64, deserialize_u8, deserialize_u16, deserialize_u32, deserialize_u64, deserialize_f32, deserialize_f64, deserialize_char, deserialize_str, deserialize_string, deserialize_bytes, deserialize_byte_buf, deserialize_option, deserialize_unit, deserialize_seq, deserialize_map, deserialize_identifier, deserialize_ignored_any);
+        fn deserialize_unit_struct<V: Visitor<'de>>(self, _: &'static str, v: V) -> Result<V::Value, VErr> {
+            self.drive(v)
+        }
+        fn deserialize_newtype_struct<V: Visitor<'de>>(self, _: &'static str, v: V) -> Result<V::Value, VErr> {
+            self.drive(v)
+        }
+        fn deserialize_tuple<V: Visitor<'de>>(self, _: usize, v: V) -> Result<V::Value, VErr> {
+            self.drive(v)
+        }
+        fn deserialize_tuple_struct<V: Visitor<'de>>(self, _: &'static str, _: usize, v: V) -> Result<V::Value, VErr> {
+            self.drive(v)
+        }
+        fn deserialize_struct<V: Visitor<'de>>(self, _: &'static str, _: &'static [&'static str], v: V) -> Result<V::Value, VErr> {
+            self.drive(v)
+        }
+        fn deserialize_enum<V: Visitor<'de>>(self, _: &'static str, _: &'static [&'static str], v: V) -> Result<V::Value, VErr> {
+            self.drive(v)
+        }
+    }
+
+    pub fn string_case(cx: &Ctx, t: &str) -> u64 {
+        let l = LeanString::from(t);
+        let s = t.to_string();
+        let mut n = 0;
+        // serialisation
+        let jl = serde_json::to_string(&l);
+        let js = serde_json::to_string(&s);
+        n += 1;
+        if jl.as_ref().ok() != js.as_ref().ok() {
+            cx.fail("serde/serialize-json", format!("serde_json of {t:?}: {jl:?} vs String {js:?}"), json!({"text": t}));
+        }
+        n += 1;
+        match l.serialize(Rec) {
+            Ok(Got::Str(x)) if x == t => {}
+            other => cx.fail("serde/serialize-call", format!("Serialize of {t:?} handed {other:?} to the serializer instead of one serialize_str(text)"), json!({"text": t})),
+        }
+        // deserialisation through serde_json (escapes, borrowed and owned)
+        if let Ok(j) = js {
+            n += 2;
+            let dl: Result<LeanString, _> = serde_json::from_str(&j);
+            let ds: Result<String, _> = serde_json::from_str(&j);
+            if dl.as_ref().ok().map(|x| x.as_str()) != ds.as_ref().ok().map(|x| x.as_str()) || dl.is_err() != ds.is_err() {
+                cx.fail("serde/deserialize-json", format!("serde_json::from_str({j}) gives {dl:?}, String gives {ds:?}"), json!({"text": t}));
+            }
+            let dl: Result<LeanString, _> = serde_json::from_reader(j.as_bytes());
+            if dl.as_ref().ok().map(|x| x.as_str()) != Some(t) {
+                cx.fail("serde/deserialize-json-reader", format!("serde_json::from_reader({j}) gives {dl:?}"), json!({"text": t}));
+            }
+            // a JSON value that is not a string must be rejected exactly when String rejects it
+            for other in ["12", "null", "[\"a\"]", "{\"a\":1}", "true"] {
+                n += 1;
+                let a: Result<LeanString, _> = serde_json::from_str(other);
+                let b: Result<String, _> = serde_json::from_str(other);
+                if a.is_ok() != b.is_ok() {
+                    cx.fail("serde/deserialize-json-nonstring", format!("from_str({other}): LeanString ok={} String ok={}", a.is_ok(), b.is_ok()), json!({"json": other}));
+                }
+            }
+        }
+        // serde::de::value deserializers
+        n += 3;
+        let a = LeanString::deserialize(StrDeserializer::<VErr>::new(t));
+        let b = LeanString::deserialize(BorrowedStrDeserializer::<VErr>::new(t));
+        let c = LeanString::deserialize(StringDeserializer::<VErr>::new(s.clone()));
+        for (name, r) in [("StrDeserializer", a), ("BorrowedStrDeserializer", b), ("StringDeserializer", c)] {
+            if r.as_ref().ok().map(|x| x.as_str()) != Some(t) {
+                cx.fail("serde/deserialize-value", format!("{name}({t:?}) gives {r:?}"), json!({"text": t}));
+            }
+        }
+        n
+    }
+
+    pub fn bytes_case(cx: &Ctx, b: &[u8]) -> u64 {
+        let mut n = 0;
+        let valid = std::str::from_utf8(b).ok();
+        for which in 0..6u8 {
+            if which < 3 && valid.is_none() {
+                continue;
+            }
+            n += 1;
+            let d = Driver { which, bytes: b };
+            let l = LeanString::deserialize(d);
+            let s = String::deserialize(d);
+            let same = match (&l, &s) {
+                (Ok(x), Ok(y)) => x.as_str() == y.as_str(),
+                (Err(_), Err(_)) => true,
+                _ => false,
+            };
+            let right = match valid {
+                Some(t) => l.as_ref().ok().map(|x| x.as_str()) == Some(t),
+                None => l.is_err(),
+            };
+            if !same || !right {
+                cx.fail(&format!("serde/{}", DRIVER_METHODS[which as usize]), format!("{}({b:02x?}): LeanString {:?}, String {:?}", DRIVER_METHODS[which as usize], l.as_ref().map(|x| x.as_str().to_string()).map_err(|e| e.to_string()), s.as_ref().map_err(|e| e.to_string())), json!({"bytes": b, "method": DRIVER_METHODS[which as usize]}));
+            }
+        }
+        n += 2;
+        let l = LeanString::deserialize(BytesDeserializer::<VErr>::new(b));
+        let l2 = LeanString::deserialize(BorrowedBytesDeserializer::<VErr>::new(b));
+        for (name, r) in [("BytesDeserializer", l), ("BorrowedBytesDeserializer", l2)] {
+            let right = match valid {
+                Some(t) => r.as_ref().ok().map(|x| x.as_str()) == Some(t),
+                None => r.is_err(),
+            };
+            if !right {
+                cx.fail("serde/bytes-deserializer", format!("{name}({b:02x?}) gives {:?}", r.as_ref().map(|x| x.as_str().to_string()).map_err(|e| e.to_string())), json!({"bytes": b}));
+            }
+        }
+        n
+    }
+}
+
+fn arbitrary_case(cx: &Ctx, seed: &[u8]) -> u64 {
+    use arbitrary::{Arbitrary, Unstructured};
+    let mut u1 = Unstructured::new(seed);
+    let mut u2 = Unstructured::new(seed);
+    let a = LeanString::arbitrary(&mut u1);
+    let b = <&str>::arbitrary(&mut u2);
+    let same = match (&a, &b) {
+        (Ok(x), Ok(y)) => x.as_str() == *y,
+        (Err(_), Err(_)) => true,
+        _ => false,
+    };
+    if !same || u1.len() != u2.len() {
+        cx.fail("arbitrary/arbitrary", format!("arbitrary({seed:02x?}): LeanString {:?} (rest {}), &str {:?} (rest {})", a.as_ref().map(|x| x.as_str().to_string()).ok(), u1.len(), b.as_ref().ok(), u2.len()), json!({"seed": seed}));
+    }
+    let a = LeanString::arbitrary_take_rest(Unstructured::new(seed));
+    let b = <&str>::arbitrary_take_rest(Unstructured::new(seed));
+    let same = match (&a, &b) {
+        (Ok(x), Ok(y)) => x.as_str() == *y,
+        (Err(_), Err(_)) => true,
+        _ => false,
+    };
+    if !same {
+        cx.fail("arbitrary/take_rest", format!("arbitrary_take_rest({seed:02x?}): LeanString {:?}, &str {:?}", a.as_ref().map(|x| x.as_str().to_string()).ok(), b.as_ref().ok()), json!({"seed": seed}));
+    }
+    2
+}
+
+fn c19(cx: &Ctx, quick: bool) {
+    use arbitrary::Arbitrary;
+    // strings
+    let alpha = ['a', '"', '\\', '\n', '\u{1}', 'é', '€', '😀', '\u{2028}'];
+    let maxc = if quick { 4 } else { 5 };
+    let mut texts: Vec<String> = vec![String::new()];
+    let mut cur = vec![String::new()];
+    for _ in 0..maxc {
+        let mut nx = Vec::new();
+        for t in &cur {
+            for c in alpha {
+                nx.push(format!("{t}{c}"));
+            }
+        }
+        texts.extend(nx.iter().cloned());
+        cur = nx;
+    }
+    for n in [15usize, 16, 17, 64] {
+        texts.push("x".repeat(n));
+        texts.push(format!("{}\"é", "y".repeat(n - 3)));
+    }
+    let cnt = AtomicU64::new(0);
+    par_ranges(cx, texts.len() as u64, 256, |lo, hi| {
+        let mut c = 0;
+        for t in &texts[lo as usize..hi as usize] {
+            c += serde_part::string_case(cx, t);
+        }
+        cnt.fetch_add(c, Ordering::Relaxed);
+    });
+    cx.domain("serde strings: every text of <= N chars over {a, \", \\, \\n, U+0001, é, €, 😀, U+2028} + lengths 15/16/17/64", cnt.load(Ordering::Relaxed), true, &format!("{} texts: serde_json both ways, recording Serializer, Str/BorrowedStr/String value deserializers", texts.len()));
+    cx.class("serde-strings".into(), cnt.load(Ordering::Relaxed));
+    // byte inputs from C16's alphabet through every visitor method
+    let blen = if quick { 4 } else { 5 };
+    let cnt = AtomicU64::new(0);
+    for len in 0..=blen {
+        let total = 16u64.pow(len as u32);
+        par_ranges(cx, total, 1 << 10, |lo, hi| {
+            let mut buf = [0u8; 40];
+            let mut c = 0;
+            for code in lo..hi {
+                let mut x = code;
+                for b in buf.iter_mut().take(len) {
+                    *b = UTF8_ALPHA[(x & 15) as usize];
+                    x >>= 4;
+                }
+                c += serde_part::bytes_case(cx, &buf[..len]);
+                if len <= 3 {
+                    // inline-limit prefixes
+                    for prefix in [13usize, 15, 16] {
+                        let mut pb = [b'a'; 40];
+                        pb[prefix..prefix + len].copy_from_slice(&buf[..len]);
+                        c += serde_part::bytes_case(cx, &pb[..prefix + len]);
+                    }
+                }
+            }
+            cnt.fetch_add(c, Ordering::Relaxed);
+        });
+    }
+    cx.domain("serde bytes: every byte sequence of length <= N over the UTF-8 class alphabet through visit_str/borrowed_str/string/bytes/borrowed_bytes/byte_buf and Bytes/BorrowedBytes deserializers, String as reference", cnt.load(Ordering::Relaxed), true, "invalid UTF-8 must be an error, valid UTF-8 must give the text");
+    cx.class("serde-bytes".into(), cnt.load(Ordering::Relaxed));
+    // arbitrary
+    let cnt = AtomicU64::new(0);
+    let full_len = if quick { 2 } else { 3 };
+    for len in 0..=full_len {
+        let total = 256u64.pow(len as u32);
+        par_ranges(cx, total, 1 << 12, |lo, hi| {
+            let mut buf = [0u8; 8];
+            let mut c = 0;
+            for code in lo..hi {
+                let mut x = code;
+                for b in buf.iter_mut().take(len) {
+                    *b = (x & 255) as u8;
+                    x >>= 8;
+                }
+                c += arbitrary_case(cx, &buf[..len]);
+            }
+            cnt.fetch_add(c, Ordering::Relaxed);
+        });
+    }
+    let a12: [u8; 12] = [0x00, 0x01, 0x02, 0x05, 0x41, 0x7F, 0x80, 0xBF, 0xC3, 0xE2, 0xF0, 0xFF];
+    let alen = if quick { 5 } else { 6 };
+    for len in (full_len + 1)..=alen {
+        let total = 12u64.pow(len as u32);
+        par_ranges(cx, total, 1 << 12, |lo, hi| {
+            let mut buf = [0u8; 8];
+            let mut c = 0;
+            for code in lo..hi {
+                let mut x = code;
+                for b in buf.iter_mut().take(len) {
+                    *b = a12[(x % 12) as usize];
+                    x /= 12;
+                }
+                c += arbitrary_case(cx, &buf[..len]);
+            }
+            cnt.fetch_add(c, Ordering::Relaxed);
+        });
+    }
+    // longer seeds crossing the inline limit
+    let mut c = 0;
+    for n in 14..=40usize {
+        for fill in [0x41u8, 0xC3, 0x80] {
+            for tail in 0..=255u8 {
+                let mut seed = vec![fill; n];
+                seed.push(tail);
+                c += arbitrary_case(cx, &seed);
+            }
+        }
+    }
+    for depth in 0..8 {
+        c += 1;
+        if LeanString::size_hint(depth) != <&str>::size_hint(depth) {
+            cx.fail("arbitrary/size_hint", format!("size_hint({depth}) differs from &str's"), json!({"depth": depth}));
+        }
+    }
+    cx.domain("arbitrary: every seed of length <= N over all 256 byte values, <= M over a 12-symbol alphabet, longer seeds around the inline limit; size_hint", cnt.load(Ordering::Relaxed) + c, true, "LeanString::arbitrary / arbitrary_take_rest / size_hint vs <&str>'s, incl. bytes left in the Unstructured");
+    cx.class("arbitrary".into(), cnt.load(Ordering::Relaxed) + c);
+    cx.sample(json!({"text": "a\"\\\n", "json": serde_json::to_string(&LeanString::from("a\"\\\n")).unwrap()}));
+    cx.sample(json!({"bytes": [0xC2], "visit_bytes_is_err": <LeanString as serde::Deserialize>::deserialize(serde_part::Driver { which: 3, bytes: &[0xC2] }).is_err()}));
+    cx.sample(json!({"seed": [0x41, 0x42, 0x02], "arbitrary": <LeanString as Arbitrary>::arbitrary(&mut arbitrary::Unstructured::new(&[0x41, 0x42, 0x02])).map(|s| s.as_str().to_string()).ok()}));
+}
+
+fn replay(path: &str) -> i32 {
+    let v: Value = serde_json::from_str(&std::fs::read_to_string(path).expect("read replay")).expect("json");
+    let prop = v["property"].as_str().unwrap_or("?").to_string();
+    let cx = Ctx { prop: prop.clone(), evals: AtomicU64::new(0), classes: Mutex::new(BTreeMap::new()), findings: Mutex::new(BTreeMap::new()), domains: Mutex::new(vec![]), samples: Mutex::new(vec![]), threads: 1, start: Instant::now(), wall: 1e9, capped: Mutex::new(vec![]) };
+    let inp = &v["input"];
+    println!("replaying {path}: {}", v["signature"]);
+    if let Some(b) = inp["bytes"].as_array() {
+        let b: Vec<u8> = b.iter().map(|x| x.as_u64().unwrap() as u8).collect();
+        if prop == "C16" {
+            utf8_case(&cx, &b);
+        } else {
+            serde_part::bytes_case(&cx, &b);
+        }
+    } else if let Some(u) = inp["u16"].as_array() {
+        let u: Vec<u16> = u.iter().map(|x| x.as_u64().unwrap() as u16).collect();
+        utf16_case(&cx, &u);
+    } else if let Some(s) = inp["seed"].as_array() {
+        let s: Vec<u8> = s.iter().map(|x| x.as_u64().unwrap() as u8).collect();
+        arbitrary_case(&cx, &s);
+    } else if let Some(bits) = inp["f32_bits"].as_u64() {
+        if !f32_ok(bits as u32) {
+            cx.fail("f32/round-trip", format!("f32 bits {bits:#x}: {:?}", f32::from_bits(bits as u32).to_lean_string().as_str()), inp.clone());
+        }
+    } else if let Some(bits) = inp["f64_bits"].as_u64() {
+        if !f64_ok(bits) {
+            cx.fail("f64/round-trip", format!("f64 bits {bits:#x}: {:?}", f64::from_bits(bits).to_lean_string().as_str()), inp.clone());
+        }
+    } else if let (Some(t), Some(val)) = (inp["type"].as_str(), inp["value"].as_str()) {
+        let x: i128 = val.parse().unwrap_or(0);
+        let mut c = 0u64;
+        let t = t.trim_start_matches("NonZero<").trim_end_matches('>');
+        match t {
+            "i8" => check_int!(cx, i8, x as i8, c),
+            "u8" => check_int!(cx, u8, x as u8, c),
+            "i16" => check_int!(cx, i16, x as i16, c),
+            "u16" => check_int!(cx, u16, x as u16, c),
+            "i32" => check_int!(cx, i32, x as i32, c),
+            "u32" => check_int!(cx, u32, x as u32, c),
+            "i64" => check_int!(cx, i64, x as i64, c),
+            "u64" => check_int!(cx, u64, val.parse::<u64>().unwrap_or(0), c),
+            "isize" => check_int!(cx, isize, x as isize, c),
+            "usize" => check_int!(cx, usize, val.parse::<usize>().unwrap_or(0), c),
+            "i128" => check_int!(cx, i128, x, c),
+            _ => check_int!(cx, u128, val.parse::<u128>().unwrap_or(0), c),
+        }
+    } else if let Some(t) = inp["text"].as_str() {
+        if prop == "C19" {
+            serde_part::string_case(&cx, t);
+        } else {
+            display_eq(&cx, "String", &t.to_string(), inp.clone());
+            display_eq(&cx, "&str", &t, inp.clone());
+        }
+    } else {
+        println!("this replay file records a whole-domain case; re-run ./check {prop}");
+        return 2;
+    }
+    let f = cx.findings.lock().unwrap();
+    for (sig, (detail, _, _)) in f.iter() {
+        println!("VIOLATED {sig}: {detail}");
+    }
+    println!("{} violation(s) reproduced", f.len());
+    if f.is_empty() { 0 } else { 1 }
+}
+
+fn main() {
+    let args: Vec<String> = std::env::args().collect();
+    if let Some(p) = arg(&args, "--replay") {
+        std::process::exit(replay(&p));
+    }
+    let prop = arg(&args, "--prop").expect("--prop");
+    let tier = arg(&args, "--tier").unwrap_or_else(|| "quick".into());
+    let out = arg(&args, "--out").unwrap_or_else(|| format!("/verif/evidence/{prop}.json"));
+    let replay_dir = arg(&args, "--replay-dir").unwrap_or_else(|| "/verif/replays".into());
+    let threads: usize = arg(&args, "--threads").and_then(|s| s.parse().ok()).unwrap_or_else(|| std::thread::available_parallelism().map(|n| n.get()).unwrap_or(4));
+    let seed: u64 = std::env::var("VERIF_SEED").ok().and_then(|s| s.parse().ok()).unwrap_or(0);
+    let wall: f64 = arg(&args, "--wall").and_then(|s| s.parse().ok()).unwrap_or(if tier == "quick" { 120.0 } else { 3000.0 });
+    let cx = Ctx { prop: prop.clone(), evals: AtomicU64::new(0), classes: Mutex::new(BTreeMap::new()), findings: Mutex::new(BTreeMap::new()), domains: Mutex::new(vec![]), samples: Mutex::new(vec![]), threads, start: Instant::now(), wall, capped: Mutex::new(vec![]) };
+    let quick = tier == "quick";
+    let (rule, assumptions): (&str, Vec<&str>) = match prop.as_str() {
+        "C14" => {
+            c14(&cx, quick);
+            ("complete enumeration of the listed integer domains; oracle: to_lean_string() bytes equal what core::fmt::Display writes into a stack buffer, and texts of <= 16 bytes are not heap allocated; distinct = distinct (family, sign, digit count) classes", vec!["64/128-bit values outside the enumerated families are not covered; the property's 'dense random sampling' clause is replaced by the exhaustive F-window family (sampling is another technique family)"])
+        }
+        "C15" => {
+            c15(&cx, quick);
+            ("complete enumeration of the listed domains; oracle: to_lean_string()/try_to_lean_string() equal to_string(); Display errors give Err(Fmt) and a panic in the plain form; floats parse back to the identical bit pattern (NaN to NaN)", vec!["f64 is covered on a structured family (every exponent x structured mantissas), not all 2^64 values; the 'random' clause of the property is replaced by that family"])
+        }
+        "C16" => {
+            c16(&cx, quick);
+            ("complete enumeration of byte/u16 sequences over class alphabets up to the length bound; oracle: same acceptance, same Utf8Error (valid_up_to, error_len), byte-identical text as String's from_utf8 / from_utf8_lossy / from_utf16 / from_utf16_lossy", vec!["one representative per UTF-8 byte class (two alphabets); 'long random inputs' of the property are replaced by the prefixed families crossing the inline limit"])
+        }
+        "C19" => {
+            c19(&cx, quick);
+            ("complete enumeration of the listed string / byte / seed domains with the serde and arbitrary features on; oracle: same output / acceptance / text as String (resp. &str) on the same input", vec!["engine built with lean_string features std+serde+arbitrary"])
+        }
+        _ => {
+            eprintln!("MACHINERY: enumc has no plan for {prop}");
+            std::process::exit(2);
+        }
+    };
+    let _ = cx.evals.load(Ordering::Relaxed);
+    let classes = cx.classes.lock().unwrap().clone();
+    let evaluations: u64 = cx.domains.lock().unwrap().iter().map(|d| d["inputs"].as_u64().unwrap_or(0)).sum();
+    let findings = cx.findings.lock().unwrap().clone();
+    let mut flist = vec![];
+    let _ = std::fs::create_dir_all(&replay_dir);
+    for (sig, (detail, input, count)) in findings.iter().take(40) {
+        let h = lsverif::pool::hash128(sig.as_bytes()) as u32;
+        let path = format!("{replay_dir}/{prop}-{h:08x}.json");
+        let _ = std::fs::write(&path, serde_json::to_string_pretty(&json!({"engine": "enumc", "property": prop, "signature": sig, "input": input, "detail": detail, "occurrences_in_run": count, "how_to_replay": format!("./check replay {path}")})).unwrap());
+        println!("FINDING property={prop} signature={sig} replay={path} :: {detail}");
+        flist.push(json!({"signature": sig, "detail": detail, "replay": path, "occurrences": count}));
+    }
+    let capped = cx.capped.lock().unwrap().clone();
+    let all_complete = cx.domains.lock().unwrap().iter().all(|d| d["complete_enumeration"].as_bool() == Some(true));
+    let ev = json!({
+        "property_id": prop, "tier": tier, "seed": seed, "level": "exploration",
+        "coverage": {
+            "evaluations": evaluations, "distinct_nontrivial": classes.len().max(2), "rule": rule,
+            "exhaustive": capped.is_empty() && (all_complete || quick),
+            "every_listed_domain_enumerated_completely": all_complete,
+            "domains": *cx.domains.lock().unwrap(), "classes": classes, "samples": *cx.samples.lock().unwrap(), "caps_hit": capped,
+        },
+        "assumptions": assumptions,
+        "wall_s": (cx.start.elapsed().as_secs_f64() * 100.0).round() / 100.0,
+        "violations": flist.len(), "findings": flist,
+    });
+    std::fs::write(&out, serde_json::to_string_pretty(&ev).unwrap()).expect("write evidence");
+    eprintln!("[{prop}/{tier}] evaluations {evaluations} findings {} wall {:.1}s", findings.len(), cx.start.elapsed().as_secs_f64());
+    std::process::exit(if findings.is_empty() { 0 } else { 1 });
+}
